@@ -54,10 +54,16 @@ def corpus():
     inner = D.Struct([val("a", u8(), bytepos=2), val("b", u8(), bytepos=0)])
     out.append(("nested-struct-cursor", C("RQ", "request", [val("s", inner), val("x", u8())]), {"s": {"a": 1, "b": 2}, "x": 3}, None,
                 ["nested-structure-cursor-behind-last-listed-parameter"]))
+    # found while lifting the static-length theorem to nested structures (C08_empty_struct_counterexample): an EMPTY structure at an
+    # explicit BYTE-POSITION behind the end of the PDU counts for the static length but the encoder emplaces nothing there
+    out.append(("empty-struct-at-position", C("RQ", "request", [val("a", u8()), val("s", D.Struct([]), bytepos=5)]), {"a": 1, "s": {}}, None,
+                ["empty-nested-structure-static-length"]))
     return out
 
 
-WHAT = {"condensed-bit-mask": "static bit length of a description with a condensed BIT-MASK differs from the length of its encoding",
+WHAT = {"empty-nested-structure-static-length":
+            "static bit length counts the BYTE-POSITION of an empty nested STRUCTURE, the encoder emplaces nothing there (the PDU ends before it)",
+        "condensed-bit-mask": "static bit length of a description with a condensed BIT-MASK differs from the length of its encoding",
         "nested-structure-cursor-behind-last-listed-parameter":
             "static bit length assumes that the parameter after a nested STRUCTURE starts behind the structure's full extent; encoder and "
             "decoder place it behind the structure's last *listed* parameter"}
